@@ -408,8 +408,39 @@ func Conclude(rep *Report) int {
 			b, _ = json.MarshalIndent(rf, "", " ")
 			_ = os.WriteFile(path, b, 0o644)
 		}
+		if conf == "did-not-reproduce" && rep.Workers > 0 && nv.rec.Case != nil {
+			// the violation may need the state the worker process had accumulated (a process-wide cache,
+			// pool or counter): replay that worker's deterministic case sequence up to this case, twice
+			shard := int(nv.rec.Case.Hash() % uint64(rep.Workers))
+			hits := 0
+			for k := 0; k < 2; k++ {
+				out := filepath.Join(root(), "build", fmt.Sprintf("shardreplay-%s-%d-%d", rep.Property, os.Getpid(), k))
+				_ = os.Remove(out)
+				cmd := exec.Command(self, "worker", "-prop", rep.Property, "-tier", rep.Tier, "-shard", strconv.Itoa(shard), "-n", strconv.Itoa(rep.Workers), "-stopafter", strconv.FormatInt(nv.rec.Idx, 10), "-out", out)
+				_ = cmd.Run()
+				vs, _ := readOut(out)
+				_ = os.Remove(out)
+				for _, v := range vs {
+					if v.Idx == nv.rec.Idx {
+						for _, x := range v.Viols {
+							if x.Class == nv.v.Class {
+								hits++
+								break
+							}
+						}
+					}
+				}
+			}
+			if hits == 2 {
+				conf = "reproduced-twice-when-the-worker-history-is-replayed"
+				rf.Confirmed = conf
+				rf.HowToRun = fmt.Sprintf("%s worker -prop %s -tier %s -shard %d -n %d -stopafter %d -out /dev/stdout   (the violation needs the process state accumulated by the preceding cases of this worker)", self, rep.Property, rep.Tier, shard, rep.Workers, nv.rec.Idx)
+				b, _ = json.MarshalIndent(rf, "", " ")
+				_ = os.WriteFile(path, b, 0o644)
+			}
+		}
 		if conf == "did-not-reproduce" {
-			rep.Unconfirmed = append(rep.Unconfirmed, fmt.Sprintf("violation %s on %s did not reproduce in isolation", nv.v.Class, caseKey(nv.rec.Case)))
+			rep.Unconfirmed = append(rep.Unconfirmed, fmt.Sprintf("violation %s on %s did not reproduce in isolation nor with its worker's history", nv.v.Class, caseKey(nv.rec.Case)))
 			rep.Exhaustive = false
 			continue
 		}
